@@ -1774,7 +1774,7 @@ def randomizer_bin_und(R, alpha, seed=None):
     ax = len(R)
     nr_poss_edges = (np.dot(ax, ax) - ax) / 2  # find maximum possible edges
 
-    savediag = np.diag(R)
+    savediag = np.diag(R).copy()
     np.fill_diagonal(R, np.inf)  # replace diagonal with high value
 
     # if there are more edges than non-edges, invert the matrix to reduce
@@ -1867,7 +1867,7 @@ def randomizer_bin_und(R, alpha, seed=None):
         R = np.logical_not(R)
 
     # restore diagonal
-    np.fill_diagonal(R, 0)
-    R += savediag
+    R = np.array(R, dtype=int)
+    np.fill_diagonal(R, savediag)
 
-    return np.array(R, dtype=int)
+    return R
